@@ -312,6 +312,40 @@ Definition read_pam (s : list Z) : option image :=
   | None => None
   end.
 
-(* ---------- what the samples of a PAM / PPM pixel denote ---------- *)
-(* a sample s with maxval m is the intensity s/m; it is the 8-bit value c iff s/m = c/255 *)
-Definition sample_denotes (maxval s c : Z) : Prop := s * 255 = c * maxval.
+(* ---------- what a PAM tuple denotes ---------- *)
+(* pam(5): a sample v with maxval m is the intensity v/m.  [scale255 m v] is that intensity on the 0..255 scale
+   when it is a whole number. *)
+Definition scale255 (maxval v : Z) : option Z :=
+  if (v * 255) mod maxval =? 0 then Some (v * 255 / maxval) else None.
+
+Inductive tt_kind := KBW | KGray | KRGB | KBWA | KGrayA | KRGBA | KOther.
+Definition tupltype_kind (tt : list Z) : tt_kind :=
+  if bytes_eqb tt TT_BLACKANDWHITE then KBW
+  else if bytes_eqb tt TT_GRAYSCALE then KGray
+  else if bytes_eqb tt TT_RGB then KRGB
+  else if bytes_eqb tt (TT_BLACKANDWHITE ++ TT_ALPHA_SUFFIX) then KBWA
+  else if bytes_eqb tt (TT_GRAYSCALE ++ TT_ALPHA_SUFFIX) then KGrayA
+  else if bytes_eqb tt (TT_RGB ++ TT_ALPHA_SUFFIX) then KRGBA
+  else KOther.
+
+(* the colour of a tuple as [R; G; B; A], each 0..255 (A = 255 opaque, 0 fully transparent), as pam(5) defines the
+   standard tuple types: BLACKANDWHITE / GRAYSCALE: one grey sample (maxval = white); RGB: red, green, blue;
+   *_ALPHA: an additional opacity sample (maxval = opaque) *)
+Definition pam_pixel_rgba (tt : list Z) (maxval : Z) (px : pixel) : option (list Z) :=
+  match tupltype_kind tt, px with
+  | KBW, [v] | KGray, [v] =>
+      match scale255 maxval v with Some g => Some [g; g; g; 255] | None => None end
+  | KRGB, [r; g; b] =>
+      match scale255 maxval r, scale255 maxval g, scale255 maxval b with
+      | Some r', Some g', Some b' => Some [r'; g'; b'; 255]
+      | _, _, _ => None end
+  | KBWA, [v; a] | KGrayA, [v; a] =>
+      match scale255 maxval v, scale255 maxval a with
+      | Some g, Some a' => Some [g; g; g; a']
+      | _, _ => None end
+  | KRGBA, [r; g; b; a] =>
+      match scale255 maxval r, scale255 maxval g, scale255 maxval b, scale255 maxval a with
+      | Some r', Some g', Some b', Some a' => Some [r'; g'; b'; a']
+      | _, _, _, _ => None end
+  | _, _ => None
+  end.
